@@ -461,3 +461,79 @@ package signal
 //@     invariant forall(k, 0, $i, at(dst, k) == K(old(at(src, k))))
 //@     invariant sameExcept(dst, 0, $i)
 //@     decreases n - $i
+
+// ---------------------------------------------------------------------------
+// allocation
+// ---------------------------------------------------------------------------
+
+//@ func getBitDepth[T]()
+//@   props C13
+//@   insts named
+//@   mode precise
+//@   pure
+//@   ensures[width: C13] result == width(T)
+
+//@ func Alloc[T](a)
+//@   props C13 C10 C20
+//@   insts named
+//@   theory defined
+//@   requires 0 <= a.Channels && 0 <= a.Length && a.Length <= a.Capacity && bi(a.Channels, 0, a.Capacity) <= pow2(48)
+//@   ensures[fresh: C13 C10] fresh(result) && freshStorage(result)
+//@   ensures[shape: C13 C10 C20] result.channels == a.Channels && len(result.data) == bi(a.Channels, 0, a.Length)
+//@     | && cap(result.data) == bi(a.Channels, 0, a.Capacity)
+//@   ensures[reports: C13] a.Channels >= 1 ==> cdiv(len(result.data), a.Channels) == a.Length && fdiv(cap(result.data), a.Channels) == a.Capacity
+//@   ensures[zeroed: C13 C10] forall(q, 0, cap(result.data), at(result, q) == zero(T))
+//@   ensures[bit-depth: C13 C10] result.bitDepth == width(T)
+//@   ensures[wf] wf(result)
+//@   ensures[others-untouched: C13 C10] heapSameBelow(result) && hdrSameExcept(result)
+//@   ensures[allocs] allocs == old(allocs) + 2
+//@   modifies H(T) hdr(T) brk(T) obj(T) allocs
+
+// ---------------------------------------------------------------------------
+// Append
+// ---------------------------------------------------------------------------
+
+//@ func alignCapacity(s, channels, c)
+//@   props C03 C12 C20
+//@   theory defined
+//@   let s = anyDataPtr(int8)
+//@   requires[wfBase] wfBase(bufOf(s))
+//@   requires[channels] channels == bufOf(s).channels
+//@   requires[cap] c == cap(deref(s))
+//@   requires[covers-length] channels >= 1 ==> len(deref(s)) <= bi(channels, 0, fdiv(c, channels))
+//@   ensures[aligned: C03 C12] channels >= 1 ==> cap(deref(s)) == bi(channels, 0, fdiv(c, channels))
+//@     | && cap(deref(s)) == bi(channels, 0, fdiv(cap(deref(s)), channels)) && cap(deref(s)) <= c
+//@   ensures[zero-channels: C20] channels == 0 ==> cap(deref(s)) == old(cap(deref(s)))
+//@   ensures[rest-unchanged: C03 C12] len(deref(s)) == old(len(deref(s))) && ptr(deref(s)) == old(ptr(deref(s)))
+//@     | && bufOf(s).channels == old(bufOf(s).channels) && bufOf(s).bitDepth == old(bufOf(s).bitDepth) && hdrSameExcept(bufOf(s))
+//@   modifies hdr(s)
+
+//@ func Buffer.Append(dst, src)
+//@   props C03 C12 C18 C20
+//@   requires wf(dst) && wf(src) && aligned(dst) && aligned(src)
+//@   requires src == dst || spareDisjoint(src, dst)
+//@   panics-iff[channels: C15] dst.channels != src.channels
+//@   let m0 = len(dst.data)
+//@   let n0 = len(src.data)
+//@   let ch = dst.channels
+//@   hint bi_add(ch, fdiv(m0, ch), fdiv(n0, ch))
+//@   hint fdiv_def(m0, ch)
+//@   hint fdiv_def(n0, ch)
+//@   hint fdiv_def(cap(dst.data), ch)
+//@   hint mul_div(ch, fdiv(m0, ch) + fdiv(n0, ch))
+//@   callhint alignCapacity align_covers(cap(dst.data), ch, m0 + n0)
+//@   ensures[len: C03 C12 C20] len(dst.data) == m0 + n0
+//@   ensures[prefix: C03 C12] forall(p, 0, m0, at(dst, p) == old(at(dst, p)))
+//@   ensures[suffix: C03 C12] forall(p, 0, n0, at(dst, m0 + p) == old(at(src, p)))
+//@   ensures[in-place: C03 C12 C18] old(cap(dst.data)) >= m0 + n0 ==> ptr(dst.data) == old(ptr(dst.data))
+//@     | && cap(dst.data) == old(cap(dst.data)) && allocs == old(allocs) && sameExcept(dst, m0, m0 + n0) && brk(dst) == old(brk(dst))
+//@   ensures[moved: C03 C12] old(cap(dst.data)) < m0 + n0 ==> freshStorage(dst) && heapSameBelow(dst)
+//@   ensures[capacity: C03 C12] wf(dst) && dst.channels == ch
+//@   ensures[source: C03] src != dst ==> len(src.data) == n0 && ptr(src.data) == old(ptr(src.data)) && cap(src.data) == old(cap(src.data))
+//@   ensures[others: C03 C12] hdrSameExcept(dst)
+//@   modifies H(dst) hdr(dst) brk(dst) allocs
+//@   loop 1
+//@     invariant 0 <= $i && $i <= n0
+//@     invariant forall(p, 0, $i, at(dst, m0 + p) == old(at(src, p)))
+//@     invariant loopSameExcept(dst, m0, m0 + $i)
+//@     decreases n0 - $i
